@@ -104,7 +104,9 @@ class Peer:
     arrives when, and numbers what it sends itself.
 
     base kinds: silent | periodic | burst | answer | prober | gap; options common to all kinds:
-      answer: None | {"delay": ms, "flavour": right|wrong|missing|nonnum, "stop_after": k|None, "num": NUM}
+      answer: None | {"delay": ms, "flavour": right|wrong|missing|nonnum, "stop_after": k|None, "num": NUM,
+                      "cross": REL|None, "cross_delay": ms}   cross: the peer probes us too when it sees our probe (two
+                      idle asyncfix-like peers on the same interval: both ids are int(time.time()))
       extras: [[t_off_ms, ACTION], ...]  extra events at fixed times, whatever the base behaviour is
       serve:  how our ResendRequest is served: "gapfill" (one SequenceReset-GapFill up to the peer's counter,
               default) | "replay" (lost application frames again as PossDup, `pace` ms apart, the rest
@@ -112,6 +114,9 @@ class Peer:
     NUM (numbering relation of a frame): "new" (the peer's next number) | "gap:k" (k numbers were lost on the
       way: the frame arrives k too high) | "dup" (the previous frame again, PossDupFlag=Y: too low).
     ACTION: {"op": "frame", "mtype", "body", "num": NUM} | {"op": "skip", "k"} |
+            {"op": "treq", "id": REL, "num": NUM}  (the peer's own TestRequest; REL = value of its TestReqID relative to
+               OUR state: "ours" = the id of our last TestRequest (outstanding or just cleared), "now" = int(time.time())
+               - what another asyncfix would send -, "0", "absent", "abc", "long") |
             {"op": "rr", "rel": "valid"|"high"|"zero"}  (a ResendRequest for numbers we did / never sent).
     periodic: "nums": [NUM, ...] cycled over its frames.  gap: a frame `k` too high at t0+start (= "gap:k")."""
 
@@ -127,6 +132,7 @@ class Peer:
         self.last = None
         self.horizon = t0 + spec["horizon"]
         self.pads, self.npad = p.get("pads"), 0   # sizes of the Text(58) of the application frames, cycled
+        self.our_tid = None                       # TestReqID of the last TestRequest seen from the connection
         k = p["kind"]
         if k == "periodic":
             t, i, nums = t0 + p["period"], 0, p.get("nums", ["new"])
@@ -141,7 +147,10 @@ class Peer:
         elif k == "prober":
             t, i, nums = t0 + p["period"], 0, p.get("nums", ["new"])
             while t <= self.horizon:
-                self.frame(t, "1", [(112, f"PEER{i}")] if p.get("with_id", True) else [], nums[i % len(nums)])
+                if p.get("id_rel"):
+                    self._push(t, {"op": "treq", "id": p["id_rel"], "num": nums[i % len(nums)]})
+                else:
+                    self.frame(t, "1", [(112, f"PEER{i}")] if p.get("with_id", True) else [], nums[i % len(nums)])
                 t += p["period"]
                 i += 1
         elif k == "gap":
@@ -168,6 +177,12 @@ class Peer:
         if op == "skip":
             self._lose(act["k"])
             return None
+        if op == "treq":
+            rel = act["id"]
+            tid = {"ours": self.our_tid or str(now // 1000), "now": str(now // 1000), "0": "0", "abc": "abc",
+                   "long": "9" * 60, "absent": None}[rel]
+            act = {"op": "frame", "mtype": "1", "body": [] if tid is None else [(112, tid)], "num": act.get("num", "new")}
+            op = "frame"
         if op == "rr":
             b = {"valid": max(1, self.our_top - 1), "high": self.our_top + 1, "zero": 0}[act["rel"]]
             act = {"op": "frame", "mtype": "2", "body": [(7, str(b)), (16, "0")], "num": "new"}
@@ -211,7 +226,11 @@ class Peer:
             self._serve(now, int(fd[7]))
             return
         a = self.p.get("answer")
+        if mtype == "1":
+            self.our_tid = fd.get(112)
         if mtype == "1" and a:
+            if a.get("cross"):
+                self._push(now + a.get("cross_delay", 0), {"op": "treq", "id": a["cross"]})
             if a.get("stop_after") is not None and self.answered >= a["stop_after"]:
                 return
             self.answered += 1
@@ -510,6 +529,14 @@ def peers_for(h):
                 if act["op"] == "rr" and act["rel"] == "valid":
                     b["extras"] = [[off, act], [off + H + 125, {"op": "rr", "rel": "high"}]]
                 out.append(b)
+    # ---- the VALUE of the peer's TestReqID relative to our state, in every state (probe outstanding / not)
+    for rel in ("ours", "now", "0", "absent", "abc", "long"):
+        for d in (125, H, 2 * H + 125):      # echo delay: our probe is outstanding for that long
+            for cd in (0, 125, d + 125):      # the peer's own probe arrives with ours / before its echo / after it
+                out.append({"kind": "answer", "answer": {"delay": d, "flavour": "right", "cross": rel, "cross_delay": cd}})
+        out.append({"kind": "silent", "extras": [[(h - 1) * 1000 + 2250, {"op": "treq", "id": rel}]]})   # unanswered probe out
+        out.append({"kind": "prober", "period": H, "id_rel": rel, "answer": {"delay": 125, "flavour": "right"}})
+        out.append({"kind": "prober", "period": r125(H // 2), "id_rel": rel})
     out.append({"kind": "gap", "start": 250, "k": 2, "pace": H, "replay": False})                      # request ignored
     out.append({"kind": "gap", "start": 250, "k": 2, "pace": H, "replay": False, "noise": max(125, H // 2)})  # … but chatty
     return out
@@ -681,6 +708,8 @@ def correspondence(ctx):
                 "ResendRequest ignored with and without too-high chatter; connections starting in RESENDREQ_AWAITING / "
                 "RESENDREQ_HANDLING / RECV_SEQNUM_TOO_HIGH; numbering relation of every frame kind (expected / gap = "
                 "too high / PossDup duplicate = too low) for echoes, Heartbeats, TestRequests, application frames; "
+                "the peer's own TestRequests with a TestReqID equal to our outstanding / last id, to int(time.time()) (two "
+                "asyncfix-like peers crossing probes), 0, absent, non-numeric, 60 digits, before / with / after its echo; "
                 "inbound ResendRequests (valid / for never-sent numbers), lost frames and stray frames as extra events on "
                 "quiet-but-responsive, chatty and silent peers; the peer keeps its own counter and serves our "
                 "ResendRequests by gap fill / replay / never} x {transport: decoded frames handed to "
